@@ -698,6 +698,7 @@ class Scripts:
         if r.random() < 0.3:
             self.emit('env flag1 %d' % r.choice([1, 2, 3]))
             self.emit('irq')
+        ended = False
         while pos < n:
             room = 63 - occ
             burst = min(n - pos, room, r.choice([1, 2, 5, 20, 31, 32, 33, 40, 63, r.randint(1, 63)]))
@@ -705,44 +706,52 @@ class Scripts:
                 self.emit('env rxbyte %d' % frame[pos + i])
             pos += burst
             occ += burst
-            if pos >= n:
-                break
-            # arrivals inside the invocation (after the flags were sampled or between reads)
+            # arrivals inside the invocation (after the flags were sampled or between reads),
+            # possibly the last byte of the frame and PayloadReady itself
             inh = ''
             k = 0
-            if r.random() < 0.4 and occ <= 60:
-                k = min(n - pos - 1, 63 - occ, r.randint(1, 3))
+            if pos >= n:
+                if r.random() < 0.75:
+                    break
+                # the whole frame is in the FIFO; PayloadReady is raised while the handler runs
+                inh = ' @%d rxend %d' % (r.randint(1, 6), 1 if crcok else 0)
+                ended = True
+            elif r.random() < 0.4 and occ <= 60:
+                k = min(n - pos, 63 - occ, r.randint(1, 3))
+                if k == n - pos and r.random() < 0.5:
+                    k -= 1
                 k = max(k, 0)
                 idx = sorted(r.randint(1, 6) for _ in range(k))
                 for i in range(k):
                     inh += ' @%d rxbyte %d' % (idx[i], frame[pos + i])
+                if k > 0 and pos + k == n and r.random() < 0.6:
+                    inh += ' @%d rxend %d' % (r.randint(idx[-1], 7), 1 if crcok else 0)
+                    ended = True
             self.emit('irq' + inh)
-            # reference consumption (flags sampled before the in-handler arrivals)
+            # reference consumption (flags sampled before the in-handler arrivals): on FIFO
+            # level the handler takes the header and full batches only
             if 31 < occ < 64:
                 if exp is None:
                     occ -= hdr
                     exp = payload_len
-                remaining = 64 - hdr
-                if exp == rcv:
-                    pass
-                elif rcv + 30 < exp:
+                if exp != rcv and rcv + 30 < exp:
                     occ -= 30
                     rcv += 30
-                elif rcv == 0 and exp <= remaining:
-                    occ -= exp
-                    rcv = exp
-                else:
-                    # byte-wise drain takes everything, including what arrives meanwhile
-                    rcv += occ + k
-                    occ = -k
             pos += k
             occ += k
+            if ended:
+                break
             if r.random() < 0.15:
                 self.emit('irq')
-                if 31 < occ < 64 and exp is not None and rcv + 30 < exp:
-                    occ -= 30
-                    rcv += 30
-        self.emit('env rxend %d' % (1 if crcok else 0))
+                if 31 < occ < 64:
+                    if exp is None:
+                        occ -= hdr
+                        exp = payload_len
+                    if exp != rcv and rcv + 30 < exp:
+                        occ -= 30
+                        rcv += 30
+        if not ended:
+            self.emit('env rxend %d' % (1 if crcok else 0))
         self.emit('irq')
         if r.random() < 0.3:
             self.emit('irq')
